@@ -77,7 +77,18 @@ MediaPartValues ==
   {[BaseMedia EXCEPT !.pinf = TRUE, !.segs = <<[BaseSeg EXCEPT !.parts = <<p, BasePart>>], BaseSeg>>, !.parts = tp, !.hint = h] :
      p \in PartSet, tp \in {<<>>, <<BasePart>>, <<PartV(TRUE, "lenstart", FALSE), BasePart>>}, h \in {"no", "plain", "start", "len", "startlen"}}
 
-MediaValues == MediaHeaderValues \cup MediaLLValues \cup MediaSegValues \cup MediaKeyValues \cup MediaPartValues
+\* state carried from one segment to the next by the decoder's accumulators: a segment with exactly one optional field set,
+\* before / between / after plain segments (a field that leaks into, or is taken from, a neighbour breaks the round trip)
+OneFieldSegs ==
+  {[BaseSeg EXCEPT !.disc = TRUE], [BaseSeg EXCEPT !.gap = TRUE], [BaseSeg EXCEPT !.dt = TRUE], [BaseSeg EXCEPT !.rate = TRUE],
+   [BaseSeg EXCEPT !.br = "len"], [BaseSeg EXCEPT !.br = "lenstart"], [BaseSeg EXCEPT !.title = TRUE],
+   [BaseSeg EXCEPT !.parts = <<BasePart>>]}
+MediaCarryValues ==
+  {[BaseMedia EXCEPT !.pinf = (s.parts # <<>>), !.segs = <<s, BaseSeg, BaseSeg>>] : s \in OneFieldSegs}
+  \cup {[BaseMedia EXCEPT !.pinf = (s.parts # <<>>), !.segs = <<BaseSeg, s, BaseSeg>>] : s \in OneFieldSegs}
+  \cup {[BaseMedia EXCEPT !.pinf = (s.parts # <<>>), !.segs = <<BaseSeg, BaseSeg, s>>] : s \in OneFieldSegs}
+
+MediaValues == MediaHeaderValues \cup MediaLLValues \cup MediaSegValues \cup MediaKeyValues \cup MediaPartValues \cup MediaCarryValues
 
 \* multivariant
 VarV(avg, res, fps, grp) == [avg |-> avg, res |-> res, fps |-> fps, grp |-> grp]   \* grp \subseteq {"VIDEO","AUDIO","SUBTITLES","CLOSED-CAPTIONS"}
